@@ -11,6 +11,12 @@ Definition at_ (m : bytes) (i : nat) : N := nth i m 0%N.
 Lemma rd_at m i : i < length m -> rd m i = Ok (at_ m i).
 Proof. apply rd_ok. Qed.
 
+Lemma rd_inv m i x : rd m i = Ok x -> i < length m /\ x = at_ m i.
+Proof.
+  unfold rd, at_. intros H. destruct (nth_error m i) as [y|] eqn:E; [|discriminate]. inversion H; subst.
+  split; [apply nth_error_Some; congruence|]. symmetry. apply nth_error_nth. exact E.
+Qed.
+
 (* ------------------------------------------------------------------ string comparisons *)
 Lemma casecmp_in m : forall lit p, p + length lit <= length m ->
   exists b, casecmp_at m p lit = Ok b /\
